@@ -2,6 +2,9 @@ import HcipyVerif.Model.OpIR
 import Mathlib.Algebra.Ring.Defs
 import Mathlib.Tactic.Ring
 import Mathlib.Algebra.Order.Field.Rat
+import Mathlib.Data.Complex.Basic
+import Mathlib.Tactic.FieldSimp
+import Mathlib.Tactic.Linarith
 
 /-!
 Helper lemmas for C06: list-vector algebra and the structural induction showing that every
@@ -235,11 +238,184 @@ theorem denote_semilinear {cj : K → K} (hc : IsConj cj) (t : Term K) :
     simp only [parity, Option.some.injEq] at hb; subst hb
     simp only [denote, twist, conj_lincomb hc]; rfl
 
+/-- **Component-wise application of a (conjugate-)linear term is (conjugate-)linear** on the whole
+polarised field. -/
+theorem denoteBlocks_semilinear {cj : K → K} (hc : IsConj cj) (t : Term K) (b : Bool) (hb : parity t = some b)
+    (n : Nat) (a : K) : ∀ (r : Nat) (x y : List K), x.length = y.length →
+      denoteBlocks cj t n r (lincomb a x y)
+        = lincomb (twist cj b a) (denoteBlocks cj t n r x) (denoteBlocks cj t n r y) := by
+  intro r
+  induction r with
+  | zero => intro x y _; simp [denoteBlocks, lincomb, vadd, smul]
+  | succ r ih =>
+    intro x y h
+    have ht : (lincomb a x y).take n = lincomb a (x.take n) (y.take n) := by
+      simp [lincomb, vadd, smul, List.take_zipWith, List.map_take]
+    have hd : (lincomb a x y).drop n = lincomb a (x.drop n) (y.drop n) := by
+      simp [lincomb, vadd, smul, List.drop_zipWith, List.map_drop]
+    have hlt : (x.take n).length = (y.take n).length := by simp [List.length_take, h]
+    have hld : (x.drop n).length = (y.drop n).length := by simp [List.length_drop, h]
+    have hlen : (denote cj t (x.take n)).length = (denote cj t (y.take n)).length :=
+      denote_length_congr cj t _ _ hlt
+    simp only [denoteBlocks, ht, hd, denote_semilinear hc t b hb a _ _ hlt, ih _ _ hld]
+    simp only [lincomb, vadd, smul, List.map_append]
+    rw [List.zipWith_append (by simpa using hlen)]
+
+theorem denoteBlocks_length_congr (cj : K → K) (t : Term K) (n : Nat) :
+    ∀ (r : Nat) (x y : List K), x.length = y.length →
+      (denoteBlocks cj t n r x).length = (denoteBlocks cj t n r y).length := by
+  intro r
+  induction r with
+  | zero => intro x y _; rfl
+  | succ r ih =>
+    intro x y h
+    simp only [denoteBlocks, List.length_append]
+    rw [denote_length_congr cj t (x.take n) (y.take n) (by simp [List.length_take, h]),
+      ih (x.drop n) (y.drop n) (by simp [List.length_drop, h])]
+
+open Old in
 theorem sumsq_smul (a : Rat) (x : List Rat) : sumsq (smul a x) = a * a * sumsq x := by
   induction x with
   | nil => simp [sumsq, smul]
   | cons c x ih =>
     simp only [sumsq, smul, List.map_cons, List.sum_cons] at ih ⊢
     rw [ih]; ring
+
+/-! ## The driver's scalars: dyadic arithmetic is rational arithmetic, and a run at `CDy` is a run at `ℂ` -/
+
+namespace Dy
+
+theorem toRat_eq (a : Dy) : a.toRat = (a.m : ℚ) / (2 : ℚ) ^ a.e := by
+  simp [toRat, Rat.mkRat_eq_div]
+
+theorem align_div (a : Dy) (e : Nat) (h : a.e ≤ e) : ((a.align e : Int) : ℚ) / (2 : ℚ) ^ e = a.toRat := by
+  rw [toRat_eq]
+  have he : e = a.e + (e - a.e) := by omega
+  have h2 : (2 : ℚ) ^ e = 2 ^ a.e * 2 ^ (e - a.e) := by rw [← pow_add, ← he]
+  simp only [align]
+  push_cast
+  rw [h2]
+  field_simp
+
+theorem toRat_add (a b : Dy) : (a + b).toRat = a.toRat + b.toRat := by
+  show Dy.toRat ⟨a.align (max a.e b.e) + b.align (max a.e b.e), max a.e b.e⟩ = _
+  rw [← align_div a (max a.e b.e) (le_max_left _ _), ← align_div b (max a.e b.e) (le_max_right _ _), toRat_eq]
+  push_cast
+  ring
+
+theorem toRat_sub (a b : Dy) : (a - b).toRat = a.toRat - b.toRat := by
+  show Dy.toRat ⟨a.align (max a.e b.e) - b.align (max a.e b.e), max a.e b.e⟩ = _
+  rw [← align_div a (max a.e b.e) (le_max_left _ _), ← align_div b (max a.e b.e) (le_max_right _ _), toRat_eq]
+  push_cast
+  ring
+
+theorem toRat_mul (a b : Dy) : (a * b).toRat = a.toRat * b.toRat := by
+  show Dy.toRat ⟨a.m * b.m, a.e + b.e⟩ = _
+  simp only [toRat_eq]
+  push_cast
+  rw [pow_add]
+  field_simp
+
+theorem toRat_zero : (0 : Dy).toRat = 0 := by
+  show Dy.toRat ⟨0, 0⟩ = 0
+  simp [toRat_eq]
+
+theorem toRat_neg (a : Dy) : a.neg.toRat = -a.toRat := by
+  simp only [neg, toRat_eq]; push_cast; ring
+
+end Dy
+
+section Hom
+variable {K L : Type} [Add K] [Sub K] [Mul K] [Zero K] [CommRing L]
+
+/-- `φ` respects the operations `denote` uses. -/
+structure ScalarHom (φ : K → L) (cjK : K → K) (cjL : L → L) : Prop where
+  add : ∀ a b, φ (a + b) = φ a + φ b
+  sub : ∀ a b, φ (a - b) = φ a - φ b
+  mul : ∀ a b, φ (a * b) = φ a * φ b
+  zero : φ 0 = 0
+  conj : ∀ a, φ (cjK a) = cjL (φ a)
+
+variable {φ : K → L} {cjK : K → K} {cjL : L → L}
+
+theorem map_vadd (h : ScalarHom φ cjK cjL) (x y : List K) : (vadd x y).map φ = vadd (x.map φ) (y.map φ) := by
+  induction x generalizing y with
+  | nil => simp [vadd]
+  | cons a x ih => cases y with
+    | nil => simp [vadd]
+    | cons b y => simp only [vadd, List.zipWith_cons_cons, List.map_cons, h.add] at ih ⊢; rw [ih]
+
+theorem map_vsub (h : ScalarHom φ cjK cjL) (x y : List K) : (vsub x y).map φ = vsub (x.map φ) (y.map φ) := by
+  induction x generalizing y with
+  | nil => simp [vsub]
+  | cons a x ih => cases y with
+    | nil => simp [vsub]
+    | cons b y => simp only [vsub, List.zipWith_cons_cons, List.map_cons, h.sub] at ih ⊢; rw [ih]
+
+theorem map_vmul (h : ScalarHom φ cjK cjL) (x y : List K) : (vmul x y).map φ = vmul (x.map φ) (y.map φ) := by
+  induction x generalizing y with
+  | nil => simp [vmul]
+  | cons a x ih => cases y with
+    | nil => simp [vmul]
+    | cons b y => simp only [vmul, List.zipWith_cons_cons, List.map_cons, h.mul] at ih ⊢; rw [ih]
+
+theorem map_smul (h : ScalarHom φ cjK cjL) (a : K) (x : List K) : (smul a x).map φ = smul (φ a) (x.map φ) := by
+  simp [smul, List.map_map, Function.comp_def, h.mul]
+
+theorem map_dot (h : ScalarHom φ cjK cjL) (r x : List K) : φ (dot r x) = dot (r.map φ) (x.map φ) := by
+  induction r generalizing x with
+  | nil => simp [dot, h.zero]
+  | cons a r ih => cases x with
+    | nil => simp [dot, h.zero]
+    | cons b x => simp [dot, h.add, h.mul, ih]
+
+/-- **Change of scalars commutes with `denote`.** -/
+theorem denote_map (h : ScalarHom φ cjK cjL) (t : Term K) :
+    ∀ x : List K, (denote cjK t x).map φ = denote cjL (t.map φ) (x.map φ) := by
+  induction t with
+  | id => intro x; rfl
+  | zero n => intro x; simp [denote, Term.map, h.zero]
+  | mulField a => intro x; simp [denote, Term.map, map_vmul h]
+  | matrix rows => intro x; simp [denote, Term.map, List.map_map, Function.comp_def, map_dot h]
+  | add s t ihs iht => intro x; simp [denote, Term.map, map_vadd h, ihs, iht]
+  | sub s t ihs iht => intro x; simp [denote, Term.map, map_vsub h, ihs, iht]
+  | comp s t ihs iht => intro x; simp [denote, Term.map, ihs, iht]
+  | scale c t ih => intro x; simp [denote, Term.map, map_smul h, ih]
+  | conj => intro x; simp [denote, Term.map, List.map_map, Function.comp_def, h.conj]
+
+theorem denoteBlocks_map (h : ScalarHom φ cjK cjL) (t : Term K) (n : Nat) :
+    ∀ (r : Nat) (x : List K), (denoteBlocks cjK t n r x).map φ = denoteBlocks cjL (t.map φ) n r (x.map φ) := by
+  intro r
+  induction r with
+  | zero => intro x; rfl
+  | succ r ih =>
+    intro x
+    simp only [denoteBlocks, List.map_append, denote_map h, ih, List.map_take, List.map_drop]
+
+theorem parity_map {K L : Type} (f : K → L) (t : Term K) : parity (t.map f) = parity t := by
+  induction t with
+  | add s t ihs iht => simp [Term.map, parity, ihs, iht]
+  | sub s t ihs iht => simp [Term.map, parity, ihs, iht]
+  | comp s t ihs iht => simp [Term.map, parity, ihs, iht]
+  | scale c t ih => simp [Term.map, parity, ih]
+  | _ => rfl
+
+end Hom
+
+/-- the complex number a Gaussian dyadic stands for -/
+noncomputable def CDy.toComplex (z : CDy) : ℂ := ⟨(z.re.toRat : ℝ), (z.im.toRat : ℝ)⟩
+
+theorem CDy.scalarHom : ScalarHom CDy.toComplex CDy.conj (starRingEnd ℂ) := by
+  refine ⟨?_, ?_, ?_, ?_, ?_⟩
+  · intro a b
+    apply Complex.ext <;> simp [CDy.toComplex, show (a + b).re = a.re + b.re from rfl, show (a + b).im = a.im + b.im from rfl, Dy.toRat_add]
+  · intro a b
+    apply Complex.ext <;> simp [CDy.toComplex, show (a - b).re = a.re - b.re from rfl, show (a - b).im = a.im - b.im from rfl, Dy.toRat_sub]
+  · intro a b
+    apply Complex.ext <;> simp [CDy.toComplex, show (a * b).re = a.re * b.re - a.im * b.im from rfl,
+      show (a * b).im = a.re * b.im + a.im * b.re from rfl, Dy.toRat_add, Dy.toRat_sub, Dy.toRat_mul]
+  · apply Complex.ext <;> simp [CDy.toComplex, show (0 : CDy).re = 0 from rfl, show (0 : CDy).im = 0 from rfl, Dy.toRat_zero]
+  · intro a
+    apply Complex.ext <;> simp [CDy.toComplex, CDy.conj, Dy.toRat_neg]
 
 end HcipyVerif.OpIR
